@@ -238,7 +238,7 @@ KINDS = ['seq_of_maps', 'map_of_maps', 'map_of_scalars', 'map_mixed',
 
 def gen_case(rng, kind=None):
     kind = kind or rng.choice(KINDS)
-    ka = rng.choice(['id', 'name'])
+    ka = rng.choice(['id', 'name', 'item_id'])
     va_name = 'val'
     n = rng.randint(1, 3)
     other_sets = [[], ['val'], ['x'], ['val', 'x'], ['x', 'y'],
@@ -557,10 +557,70 @@ def judge_dash(ctx, rng_keys):
 TRANSFORMS = ['seq_to_map', 'map_to_seq', 'index_to_map', 'map_to_index']
 
 
+def judge_isolation(ctx, case):
+    """After a transform produced items, renaming the keys of ONE item
+    (through the public Node helpers, which rename key nodes in place) must
+    not touch its siblings, and must not influence what the transform
+    produces for another node later (no node objects shared between
+    items)."""
+    top, attr, ka, va = case['top'], case['attr'], case['ka'], case['va']
+    for name in ('map_to_seq', 'map_to_index'):
+        ynode = N.mk(top)
+        node = yatiml.Node(ynode)
+        try:
+            if name == 'map_to_seq':
+                node.map_attribute_to_seq(attr, ka, va)
+            else:
+                node.map_attribute_to_index(attr, ka, va)
+        except Exception:
+            continue
+        if not node.has_attribute(attr):
+            continue
+        first = N.view(node.yaml_node)
+        coll = node.get_attribute(attr).yaml_node
+        if isinstance(coll, yaml.SequenceNode):
+            items = list(coll.value)
+        elif isinstance(coll, yaml.MappingNode):
+            items = [v for _, v in coll.value]
+        else:
+            continue
+        items = [x for x in items if isinstance(x, yaml.MappingNode)]
+        if len(items) < 2:
+            continue
+        ctx.count('isolation_cases')
+        others_before = [N.view(x) for x in items[1:]]
+        it = yatiml.Node(items[0])
+        try:
+            it.unders_to_dashes_in_keys()
+            if it.has_attribute(ka):
+                it.rename_attribute(ka, ka + 'Renamed')
+        except Exception as e:
+            continue
+        others_after = [N.view(x) for x in items[1:]]
+        wit = dict(case, transform='isolation')
+        if others_after != others_before:
+            ctx.violation(
+                'C15 %s items-share-node-objects' % name,
+                'renaming the keys of the first item produced by %s changed '
+                'its siblings: %r -> %r' % (name, others_before,
+                                            others_after), wit)
+            return
+        # the same transform on a fresh copy of the same node, afterwards
+        exc, again = apply_real(top, name, attr, ka, va, True)
+        if exc is None and again != first:
+            ctx.violation(
+                'C15 %s result-depends-on-earlier-calls' % name,
+                '%s on an equal node gave %r, earlier %r' % (
+                    name, again, first), wit)
+            return
+        ctx.case(['isolation', name, case], True)
+
+
 def run_case(ctx, case):
     for name in TRANSFORMS:
         judge_single(ctx, case, name)
     judge_inverse(ctx, case)
+    judge_isolation(ctx, case)
 
 
 def shard(ctx):
@@ -585,6 +645,10 @@ def replay(ctx, case):
         judge_dash(ctx, case['keys'])
         return
     t = case.get('transform')
+    if t == 'isolation':
+        judge_isolation(ctx, {k: v for k, v in case.items()
+                              if k != 'transform'})
+        return
     base = {k: v for k, v in case.items() if k != 'transform'}
     if t in TRANSFORMS:
         judge_single(ctx, base, t)
